@@ -286,6 +286,15 @@ func checkJ6(c *Ctx, jr *joinRoles) {
 						return
 					}
 					seen[v] = true
+					// the ingest itself (or the value it stores): the buffer after the ingest
+					for _, x := range chains[k] {
+						if xv, isV := x.(ssa.Value); isV && xv == v {
+							return
+						}
+						if st, isSt := x.(*ssa.Store); isSt && st.Val == v {
+							return
+						}
+					}
 					if ld, ok := v.(*ssa.UnOp); ok && ld.Op == token.MUL && p.isFieldLoad(ld, "join") {
 						for _, x := range chains[k] {
 							if x.Parent() == ld.Parent() && !instrDominates(x, ld) {
